@@ -29,7 +29,7 @@ MIN_NONTRIVIAL_FRACTION = 0.5
 MAX_S = {"quick": 900, "thorough": 7200}
 
 KINDS_WINDOW = ["contract", "take_contract", "storage", "block_storage", "transport", "ext_transport", "multicommodity",
-                "plant", "chp", "scaled", "structured"]
+                "plant", "chp", "scaled", "structured", "coarse_contract", "coarse_storage", "coarse_transport"]
 KINDS_OTHER = ["order", "min_take", "max_take"]
 
 
@@ -57,6 +57,12 @@ def element(g, kind, s, e):
     if kind == "take_contract":
         return dict(type="Contract", name="el", nodes=["n1"], price="q", min_cap=0.0, max_cap=S.r(3.0, g),
                     min_take=dict(start=[s], end=[e], values=[6.0]), **w)
+    if kind == "coarse_contract":
+        return dict(type="SimpleContract", name="el", nodes=["n1"], price="ec", min_cap=0.0, max_cap=S.r(3.0, g), freq="12h", **w)
+    if kind == "coarse_storage":
+        return dict(type="Storage", name="el", nodes=["n1"], size=6.0, cap_in=S.r(1.0, g), cap_out=S.r(1.0, g), eff_in=0.9, freq="12h", **w)
+    if kind == "coarse_transport":
+        return dict(type="Transport", name="el", nodes=["n1", "n2"], min_cap=0.0, max_cap=S.r(2.0, g), efficiency=0.95, freq="12h", **w)
     if kind == "storage":
         return dict(type="Storage", name="el", nodes=["n1"], size=6.0, cap_in=S.r(1.0, g), cap_out=S.r(1.0, g), start_level=1.0, end_level=1.0, eff_in=0.9, **w)
     if kind == "block_storage":
